@@ -42,6 +42,12 @@ use verif_harness::*;
 
 #[path = "../recbb.rs"]
 mod recbb;
+#[allow(dead_code)]
+#[path = "../h2bb.rs"]
+mod h2bb;
+#[path = "../h2rec.rs"]
+mod h2rec;
+use h2rec::*;
 use recbb::*;
 
 // ---------------------------------------------------------------- worker
@@ -165,6 +171,31 @@ fn main() {
             backup: None,
         }));
     }
+    // cluster "h" (hostname h2.x): an HTTP/2 (h2c, prior knowledge) RECORDING backend behind the HTTP/1.1 frontend
+    let back2_l = TcpListener::bind("127.0.0.1:0").unwrap();
+    let back2 = back2_l.local_addr().unwrap();
+    let rec2 = Arc::new(Mutex::new(H2Record::default()));
+    {
+        let rec2 = rec2.clone();
+        std::thread::spawn(move || h2c_recording_backend(back2_l, rec2));
+    }
+    w.send(RequestType::AddCluster(Cluster { cluster_id: "h".into(), http2: Some(true), ..Default::default() }));
+    w.send(RequestType::AddHttpFrontend(RequestHttpFrontend {
+        cluster_id: Some("h".into()),
+        address: fa.clone(),
+        hostname: "h2.x".into(),
+        path: PathRule::prefix("/".to_string()),
+        position: RulePosition::Tree.into(),
+        ..Default::default()
+    }));
+    w.send(RequestType::AddBackend(AddBackend {
+        cluster_id: "h".into(),
+        backend_id: "h-0".into(),
+        address: back2.into(),
+        load_balancing_parameters: Some(LoadBalancingParams::default()),
+        sticky_id: None,
+        backup: None,
+    }));
     w.drain();
 
     let mut outw: Box<dyn Write> = match std::env::var_os("VERIF_OUT") {
@@ -183,13 +214,18 @@ fn main() {
                 "raw" => {
                     let raw = op.args[0].b().to_vec();
                     new_case(&rec);
+                    new_case_h2(&rec2);
                     let (answers, statuses) = drive_client(front, &raw, &cuts);
                     // give the backend threads the time to record the tail
                     std::thread::sleep(Duration::from_millis(30));
-                    let r = take_case(&rec);
-                    out.obs(&[ts("seen"), tn(r.requests.len()), ts("answers"), tn(answers)]);
+                    let mut r = take_case(&rec);
+                    let r2 = take_case_h2(&rec2);
+                    let answered_by_h2 = r2.complete;
+                    out.obs(&[ts("seen"), tn(r.requests.len()), ts("answers"), tn(answers), ts("h2seen"), tn(r2.streams.len()), ts("h2complete"), tn(r2.complete)]);
+                    r.early += answered_by_h2; // answers that came from the h2c backend
                     judge(&r, front, &statuses, &mut out);
                     judge_boundaries(&r, &raw, &mut out);
+                    judge_h2(&r2, &raw, &mut out);
                 }
                 // a scripted client: `x<bytes>` = send, <n> = wait n ms, `r` = wait for one complete answer
                 "script" => {
@@ -204,12 +240,17 @@ fn main() {
                         .collect();
                     let raw: Vec<u8> = steps.iter().flat_map(|s| if let Step::Send(b) = s { b.clone() } else { vec![] }).collect();
                     new_case(&rec);
+                    new_case_h2(&rec2);
                     let (answers, statuses) = run_script(front, &steps);
                     std::thread::sleep(Duration::from_millis(30));
-                    let r = take_case(&rec);
-                    out.obs(&[ts("seen"), tn(r.requests.len()), ts("answers"), tn(answers), ts("early"), tn(r.early)]);
+                    let mut r = take_case(&rec);
+                    let r2 = take_case_h2(&rec2);
+                    let answered_by_h2 = r2.complete;
+                    out.obs(&[ts("seen"), tn(r.requests.len()), ts("answers"), tn(answers), ts("early"), tn(r.early), ts("h2seen"), tn(r2.streams.len()), ts("h2complete"), tn(r2.complete)]);
+                    r.early += answered_by_h2; // answers that came from the h2c backend
                     judge(&r, front, &statuses, &mut out);
                     judge_boundaries(&r, &raw, &mut out);
+                    judge_h2(&r2, &raw, &mut out);
                 }
                 _ => out.obs(&[ts("badop")]),
             }
@@ -222,6 +263,35 @@ fn main() {
     }
     outw.flush().unwrap();
     std::process::exit(0);
+}
+
+/// what the h2c backend behind the HTTP/1.1 frontend received: metadata / trailers / connection-specific names
+/// (h2rec::judge_h2c), and the request boundaries: no more streams than requests the client sent, with their targets
+fn judge_h2(r2: &H2Record, raw: &[u8], out: &mut Out) {
+    if r2.streams.is_empty() && r2.blocks.is_empty() {
+        return;
+    }
+    if std::env::var_os("VERIF_DEBUG").is_some() {
+        for l in &r2.blocks {
+            out.note(&format!("h2c block: {:?}", l.iter().map(|(k, v)| format!("{}={}", String::from_utf8_lossy(k), String::from_utf8_lossy(v))).collect::<Vec<_>>()));
+        }
+    }
+    let sent = client_intent(raw);
+    // (a stream is opened at the backend as soon as the head is there: only COMPLETE streams are compared with the
+    // complete requests of the client)
+    judge_h2c(r2, usize::MAX, b"http", out);
+    if let Some(sent) = sent {
+        let mut i = 0;
+        for st in r2.streams.iter().filter(|x| x.3) {
+            match sent[i..].iter().position(|c| c.target == st.1) {
+                Some(p) => i += p + 1,
+                None => {
+                    out.viol("bb-boundaries", &format!("the h2c backend received a complete stream ({}) that is not one of the {} request(s) the client sent, in order", String::from_utf8_lossy(&st.1), sent.len()));
+                    return;
+                }
+            }
+        }
+    }
 }
 
 enum Step {
